@@ -55,13 +55,24 @@ def rand_comp(total, rng):
     return ws
 
 
-def cname(ws, gen):
-    return "B_" + "_".join(map(str, ws)) + ('_g' if gen else '_l')
+def is_gen(g):
+    """g: True / False (generated / generic code), or (that, class-wide default byte order)"""
+    return g[0] if isinstance(g, tuple) else g
 
 
-def class_src(ws, gen):
-    conf = {} if gen else {'generate_for_pack': False, 'generate_for_unpack': False}
-    return f"class {cname(ws, gen)}(Packet):\n    __bisturi__ = {conf!r}\n" + "".join(f"    f{i} = Bits({w})\n" for i, w in enumerate(ws))
+def end_of(g):
+    return g[1] if isinstance(g, tuple) else None
+
+
+def cname(ws, g):
+    return "B_" + "_".join(map(str, ws)) + ('_g' if is_gen(g) else '_l') + (('_' + end_of(g)) if end_of(g) else '')
+
+
+def class_src(ws, g):
+    conf = {} if is_gen(g) else {'generate_for_pack': False, 'generate_for_unpack': False}
+    if end_of(g):
+        conf['endianness'] = end_of(g)       # the run's shared integer stays big endian whatever the class default says
+    return f"class {cname(ws, g)}(Packet):\n    __bisturi__ = {conf!r}\n" + "".join(f"    f{i} = Bits({w})\n" for i, w in enumerate(ws))
 
 
 def ref_unpack(ws, raw):
@@ -94,6 +105,9 @@ def run(tier, seed, rng):
     comps += [(ws, rng.random() < 0.5) for ws in rng.sample(all16, n16)]
     for total in (24, 32, 40, 48, 64, 72):
         comps += [(rand_comp(total, rng), rng.random() < 0.5) for _ in range(12 if tier == 'quick' else 60)]
+    # the same under a class-wide default byte order (little / local / big): it must not reach the run's shared integer
+    for total in (16, 16, 24, 32, 40):
+        comps += [(rand_comp(total, rng), (rng.random() < 0.5, e)) for e in ('little', 'local', 'big') for _ in range(2 if tier == 'quick' else 10)]
     seen, uniq = set(), []
     for ws, g in comps:
         if (tuple(ws), g) not in seen:
@@ -186,7 +200,7 @@ def run(tier, seed, rng):
     # ---- unpack, assign some members, pack again: the shared integer then starts from the parsed bits (stale state)
     groups, rmeta = [], []
     for gid, (ws, g) in enumerate(comps[::3]):
-        pc = dict(end=None, align=None, sbl=None, gp=g, gu=g, vec=True, ann=True,
+        pc = dict(end=end_of(g), align=None, sbl=None, gp=is_gen(g), gu=is_gen(g), vec=True, ann=True,
                   fields=[{'move': None, 'body': ('bits', w, 0)} for w in ws])
         G = pktcases.Group({0: pc}, gid)
         k = sum(ws) // 8
